@@ -212,6 +212,51 @@ func c20Random(c *Ctx, idx int) {
 	c.Nontrivial(ref.ToJSONText(doc))
 }
 
+// c20Matrix: the same comparison node evaluated many times with different
+// operands inside ONE evaluation (operands rebound per element through let,
+// the current node, or a pipe), so anything remembered per node or per
+// evaluation from the first operands shows on the later ones.
+var c20MatrixForms = []string{
+	"pool[*].[let $x = @ in $.pool[*].[@ == $x, $x != @]]",
+	"pool[*].[let $x = @ in $.pool[*].[$x == @]]",
+	"map(&[let $x = @ in map(&($x == @), $.pool)], pool)",
+	"pool[*].[let $x = @ in length($.pool[?@ == $x])]",
+	"pool[*].[let $x = @ in length($.pool[?$x != @])]",
+	"pool[*].[let $x = @, $y = [@] in $.pool[*].[[@] == $y, {k: @} == {k: $x}]]",
+	"pool[*].[let $x = @ in $.pool[*].[contains([$x], @), contains([@, `0`], $x)]]",
+	"pool[*].[let $x = @ in $.pool[*].[!(@ == $x), @ == $x && `true`, @ == $x || `false`]]",
+	"pool[*].[let $x = @ in [!$x, $x && `1`, $x || `2`, $.pool[?$x] | length(@)]]",
+	"pool[*].[@ == $.pool[0], @ == $.pool[1], @ != $.pool[-1]]",
+	"pool[*].[let $x = @ in $.pool[*].[let $y = @ in $x == $y]]",
+}
+
+func c20Matrix(c *Ctx, idx int) {
+	r := c.Rand("")
+	n := 4 + r.Intn(9)
+	pool := &ref.Arr{E: make([]ref.V, 0, n)}
+	for len(pool.E) < n {
+		v := c20Pool[r.Intn(len(c20Pool))]
+		if _, ok := ref.Equal(v, v); !ok {
+			continue // numbers a decimal128 cannot hold: not judged
+		}
+		if v == nil && r.Chance(70) {
+			continue // null elements are dropped by projections; keep them rare
+		}
+		pool.E = append(pool.E, v)
+		if r.Chance(30) {
+			pool.E = append(pool.E, respell(r, gen.Clone(v)))
+		}
+	}
+	doc := ref.NewObj()
+	doc.Set("pool", pool)
+	goDoc := ref.ToGo(doc, ref.JSONNumber)
+	text := c20MatrixForms[idx%len(c20MatrixForms)]
+	m, _ := c.CheckModel("C20", text, doc, goDoc, CheckOpts{Compiled: idx%2 == 0, Features: map[string]string{"form": "matrix"}})
+	if !m.Unspec {
+		c.Nontrivial(text, ref.ToJSONText(doc))
+	}
+}
+
 func respell(r *gen.R, v ref.V) ref.V {
 	switch x := v.(type) {
 	case ref.Num:
@@ -275,7 +320,7 @@ func perturb(r *gen.R, v ref.V) ref.V {
 func init() {
 	Register(&Property{
 		ID:            "C20",
-		Rule:          "a 64-value pool (nested containers, numerically equal numbers in different spellings inside containers, reordered members, near misses, 1 vs \"1\", true vs \"true\", 0 vs false, [] vs {} vs \"\" vs null): all ordered pairs through ==, !=, contains, filter equality and container wrappers via literals and via document fields, checked against deep type-strict model equality plus reflexivity/symmetry/negation; all triples (thorough; seeded sample in quick) for transitivity of the library's own ==; every value x value through !, &&, ||, filter predicates against the single false-like set with && / || returning an operand unchanged; seeded random nested values with one controlled perturbation (respelling/reordering keeps equality, one changed leaf breaks it); non-trivial = each judged pair/value/document",
+		Rule:          "a 64-value pool (nested containers, numerically equal numbers in different spellings inside containers, reordered members, near misses, 1 vs \"1\", true vs \"true\", 0 vs false, [] vs {} vs \"\" vs null): all ordered pairs through ==, !=, contains, filter equality and container wrappers via literals and via document fields, checked against deep type-strict model equality plus reflexivity/symmetry/negation; all triples (thorough; seeded sample in quick) for transitivity of the library's own ==; every value x value through !, &&, ||, filter predicates against the single false-like set with && / || returning an operand unchanged; seeded random nested values with one controlled perturbation (respelling/reordering keeps equality, one changed leaf breaks it); matrix stream: whole comparison matrices computed inside ONE evaluation (operands rebound per element through let / current node, so every comparison node is evaluated many times with different operand values and types), compared with the model; non-trivial = each judged pair/value/document",
 		MinNontrivial: 3000,
 		Streams: []Stream{
 			{Name: "pairs", Setup: c20Setup, N: func(c *Ctx) int { c20Setup(c); return len(c20Pool) * len(c20Pool) }, Run: c20Pairs, Exhaustive: true},
@@ -288,6 +333,7 @@ func init() {
 				return 20000
 			}, Run: c20Triples},
 			{Name: "random", N: func(c *Ctx) int { return tierN(c, 20000, 2000000) }, Run: c20Random},
+			{Name: "matrix", Setup: c20Setup, N: func(c *Ctx) int { return tierN(c, 1500, 100000) }, Run: c20Matrix},
 		},
 	})
 }
